@@ -157,9 +157,8 @@ theorem failed_assemble_leaves_nothing (U : Unsupported) (filter : Filter) (w : 
 theorem probe_pure (U : Unsupported) (w : World) :
     (Gen.supported U w).1 = w.seccompAvailable ∧ (Gen.supported U w).2.thr = w.thr ∧
       (Gen.supported U w).2.live = w.live := by
-  unfold Gen.supported Gen.seccomp sysSeccomp
-  cases ha : w.seccompAvailable <;>
-    simp [SECCOMP_SET_MODE_STRICT, EINVAL, ENOSYS, schedStep_thr, schedStep_live, schedStep_avail, ha]
+  rw [gen_supported_char, sysSeccomp_probe]
+  exact ⟨rfl, schedStep_thr w, schedStep_live w⟩
 
 /-- **Tie between the regenerated loader and the specification used by the live correspondence**: for
     every filter, world, schedule and `U`, `Gen.loadFilter` leaves the world `LoaderSpec.load` leaves
